@@ -245,9 +245,10 @@ def convert_dtype(array: Union[pd.Series, pd.Index], col_dtype: Any):
                 tz_match = re.match(r"datetime64\[ns, (.+)\]", str(col_dtype))
                 tz = None if not tz_match else tz_match.group(1)
 
+            # timezone-naive values synthesized through numpy are in UTC
             if isinstance(array, pd.Index):
-                return array.tz_localize(tz)  # type: ignore [attr-defined]
-            return array.dt.tz_localize(tz)  # type: ignore [union-attr]
+                return array.tz_localize("UTC").tz_convert(tz)  # type: ignore [attr-defined]
+            return array.dt.tz_localize("UTC").dt.tz_convert(tz)  # type: ignore [union-attr]
     return array.astype(col_dtype)
 
 
